@@ -20,9 +20,26 @@ package event
 //@ func (preparator).validateAttributes
 //@   property C34
 //@   defines err == nil ==> notaryAttributeValid()
+// Witness layout of an accepted main transaction: empty proxy witness first, then the
+// Alphabet multi-signature account, optionally a non-empty invoker witness, and last the
+// Notary placeholder: no verification script at all, and an invocation script that is empty
+// or the old-style dummy.
+//@ callrule c34_witness_check_collaborators in (preparator).validateWitnesses
+//@   property C34
+//@   callee smartcontract.CreateMultiSigRedeemScript, fmt.Errorf
+//@   pureeffect
+//@ callrule c34_witness_script_comparison in (preparator).validateWitnesses
+//@   property C34
+//@   callee bytes.Equal
+//@   pureeffect
+//@   ensures result == bytesEq(a0, a1)
 //@ func (preparator).validateWitnesses
 //@   property C34
 //@   defines err == nil ==> witnessesValid()
+//@   ensures [proxy_witness_is_empty] err == nil ==> len(w[0].VerificationScript) + len(w[0].InvocationScript) == 0
+//@   ensures [notary_placeholder_has_no_verification_script] err == nil ==> len(w[len(w) - 1].VerificationScript) == 0
+//@   ensures [notary_placeholder_invocation_is_empty_or_the_dummy] err == nil ==> len(w[len(w) - 1].InvocationScript) == 0 || bytesEq(w[len(w) - 1].InvocationScript, p.dummyInvocationScript)
+//@   ensures [invoker_witness_is_not_empty] err == nil && invokerWitness ==> len(w[2].VerificationScript) + len(w[2].InvocationScript) != 0
 
 // the main transaction must be handled strictly before its fallback becomes valid
 //@ ghost pred chainHeight() uint32
